@@ -10,6 +10,7 @@ CONSTANTS
   NotifyDown = FALSE
   MaxTx = 2
   PGossip = FALSE
+  PAnnDown = FALSE
   PAnnounce = FALSE
 INVARIANTS MonitorsQuiet C02DiscoveryStrict
 VIEW View
